@@ -692,7 +692,20 @@ def write_evidence(prop, tier, seed, sel, results, group_info, violations, known
             "solver_s": (r.get("solver_s") or 0), "symex_s": (r.get("symex_s") or 0), "verification_s": (r.get("duration_s") or 0),
             "failed_checks": r.get("failed", []), "replay": r.get("replay"), "known_finding": r.get("known_finding"),
         })
-    assumptions = sorted({a for h in sel for a in [h.meta.get("assumes", "")] if a and a != "none"})
+    # expand "as <harness>" cross references in the harness metadata so that every sample is self-contained
+    allmeta = {h.name: h.meta for h in load_registry()}
+
+    def _expand(val, key, depth=0):
+        m = re.match(r"^as (\w+)(.*)$", val or "")
+        if m and m.group(1) in allmeta and depth < 4:
+            base = _expand(allmeta[m.group(1)].get(key, ""), key, depth + 1)
+            return (base + " " + m.group(2).strip()).strip() if m.group(2).strip() else base
+        return val
+
+    for smp in samples:
+        for key, mk in (("encodes", "encodes"), ("bounds", "bounds"), ("assumes", "assumes"), ("spec", "spec"), ("instantiation", "inst")):
+            smp[key] = _expand(smp.get(key, ""), mk)
+    assumptions = sorted({s_["assumes"] for s_ in samples if s_.get("assumes") and not s_["assumes"].startswith("none")})
     ev = {
         "property_id": prop,
         "tier": tier,
